@@ -146,8 +146,9 @@ def run(v):
                     v.violation(x["sig"], x["detail"], dict(r, cyl=cyl))
             v.add_cases(len(finals), keys=[json.dumps([kind, mk, cyl, r["p0"], r["p1"], r["n"]]) for r in finals])
             v.sample({k: x for k, x in finals[len(finals) // 2].items() if k != "voxel_map"})
-    from . import c10_pipeline
+    from . import c10_pipeline, c10_object
     c10_pipeline.run_part(v)
+    c10_object.run_part(v)
     for x in end_to_end(v.seed):
         v.violation(x["sig"], x["detail"], None)
     v.add_cases(2, keys=["end-to-end-box", "end-to-end-cylinder"])
@@ -162,7 +163,7 @@ def selftest():
            "voxel_map": [[[0, 1], [2, 3]], [[4, 5], [6, 7]], [[8, 9], [10, 11]]]}
     good = replay(rec, None)
     bad = replay(dict(rec, per_source=[0, 1, 0, 0, 0, 0, 0, 0, 0, 0, 0, 1]), None)
-    from . import c10_pipeline
-    ok = not good and bool(bad) and c10_pipeline.selftest()
+    from . import c10_pipeline, c10_object
+    ok = not good and bool(bad) and c10_pipeline.selftest() and c10_object.selftest()
     print("C10 selftest:", "ok" if ok else "FAILED", good[:1], bad[:1])
     return 0 if ok else 2
